@@ -36,6 +36,39 @@ class Term:
         return (Term, (self.f, self.args))
 
 
+# ------------------------------------------------------------------------------------------------ interpreted functions
+# Most generated user functions are uninterpreted (they return a free `Term`).  A function whose NAME ends in one of the
+# suffixes below is interpreted as the constant function returning that (falsy) value: `None`, `0`, `False`, `""` — the values
+# on which `if not value` / `value is None` / `dict.get(k)` short-cuts in library code go wrong.  The Lean models never look
+# inside values (they only build terms and compare positions), so the model's answer under the interpretation is the
+# homomorphic image of its free-term answer: `canon` maps every `app f …` (and `pick`/`proj` of it) of such an `f` to the constant.
+# Models that compare VALUES (cache keys: C09, C18) only use interpreted functions at sinks (see pipegen/mapgen `_const_policy`).
+CONST_SUFFIX = {"_none": None, "_zero": 0, "_false": False, "_empty": ""}
+
+
+def const_of(name):
+    """(True, constant) when `name` denotes an interpreted constant function, else (False, None)."""
+    if isinstance(name, str):
+        for suf, c in CONST_SUFFIX.items():
+            if name.endswith(suf):
+                return True, c
+    return False, None
+
+
+def _const_call(j):
+    """the constant a model value JSON denotes when it is a call (or a pick / proj of a call) of an interpreted function"""
+    while isinstance(j, dict):
+        if "f" in j and "k" in j:
+            return const_of(j["f"])
+        if "pick" in j:
+            j = j["pick"][0]
+        elif "proj" in j:
+            j = j["proj"][0]
+        else:
+            break
+    return False, None
+
+
 def freeze(v):
     """A hashable stand-in for any value a function may receive."""
     if v is np.ma.masked:
@@ -80,7 +113,7 @@ def enc(v):
     if v is None:
         return None
     if isinstance(v, (bool, np.bool_)):
-        return {"b": bool(v)}
+        return {"s": "$True" if v else "$False"}      # PF.Val has no booleans: a reserved string (see `dec`)
     if isinstance(v, (int, np.integer)):
         return int(v)
     if isinstance(v, str):
@@ -93,6 +126,9 @@ def enc(v):
 def canon(j):
     """Normalise a value JSON coming from the Lean driver to the same canonical form `enc` produces."""
     if isinstance(j, dict):
+        is_c, c = _const_call(j)
+        if is_c:
+            return enc(c)
         if "f" in j:
             return {"f": j["f"], "k": sorted(([k, canon(x)] for k, x in j["k"]), key=lambda kv: kv[0])}
         if "t" in j:
@@ -117,7 +153,7 @@ def dec(j):
         return j
     if isinstance(j, dict):
         if "s" in j:
-            return j["s"]
+            return {"$True": True, "$False": False}.get(j["s"], j["s"])
         if "b" in j:
             return j["b"]
         if "f" in j:
@@ -205,6 +241,8 @@ def make_func(name, params, outputs, defaults=None, internal_shape=None, log=Non
     log = log if log is not None else LOG
     counter = itertools.count()
 
+    is_const, const = const_of(name)
+
     def _impl(kw):
         kw_frozen = sorted((k, freeze(v)) for k, v in kw.items())
         t = Term(name, kw_frozen)
@@ -223,10 +261,10 @@ def make_func(name, params, outputs, defaults=None, internal_shape=None, log=Non
 
         def shaped(base):
             if internal_shape is None:
-                return base
+                return const if is_const else base
             arr = np.empty(internal_shape, dtype=object)
             for ix in itertools.product(*map(range, internal_shape)):
-                arr[ix] = Term("proj", (base, tuple(ix)))
+                arr[ix] = const if is_const else Term("proj", (base, tuple(ix)))
             return arr
 
         if len(outputs) == 1:
